@@ -35,7 +35,9 @@ def grammar_model(ctx):
     for r in table:
         if r.method.name not in effects:
             effects[r.method.name] = G.effect_of(prog, classes, r.method)
-    model = G.TableModel(table, effects)
+    modes = {cc.sem: True for cc in classes.values()
+             if cc.sem in ('and', 'or') and cc.merges}
+    model = G.TableModel(table, effects, modes)
     return classes, pstate, table, effects, model
 
 
@@ -1044,6 +1046,105 @@ def check_const(ctx):
     ctx.floor('C01.CONST', n, 5, 'constant inputs')
 
 
+def check_text_driver(ctx, pstate):
+    """Every non-empty rule text is decided by tokenizer + reducer table:
+    the text-rule parser has no side door."""
+    prog = ctx.prog
+    pr, en, paths = parse_rule_paths(ctx)
+    param = pr.params[0]
+    dom = kinds_domain()
+    tok, _consumer, _loop = T.find_tokenizer(prog)
+
+    def modof(frame):
+        return prog.functions[frame].module if frame in prog.functions \
+            else pr.module
+    bad = None
+    n = 0
+    for k in ('str', "'@'", "'!'"):
+        av = dom[k]
+
+        def evf(cond, av=av):
+            return Evaluator(prog, modof(cond.frame), {param: av})
+        for p, unk in feasible(paths, evf):
+            n += 1
+            exc = any(c.kind == 'exc' for c in p.conds)
+            if p.outcome.kind != 'return' or p.outcome.expr is None:
+                continue
+            e = en.expand(p.outcome.expr)
+            tokenized = any(
+                ev.kind == 'iter' and isinstance(en.expand(ev.node),
+                                                 ast.Call)
+                and prog.callee_of(prog.functions.get(ev.frame, pr),
+                                   en.expand(ev.node)) is tok
+                for ev in p.events)
+            from_state = isinstance(e, ast.Attribute) and isinstance(
+                e.value, ast.Call) and prog.resolve(
+                    modof(p.outcome.frame), e.value.func) == pstate.qual
+            if exc and outcome_class(ctx, en, modof, p) == 'false':
+                continue
+            if not (tokenized and from_state) and bad is None:
+                bad = (p, U(e)[:80], k)
+    ctx.ob('C01.TEXT-DRIVER', bad is None and n > 0,
+           '%s:%d' % (ctx.where(pr.module, pr.node).split(':')[0],
+                      bad[0].outcome.line) if bad
+           else ctx.where(pr.module, pr.node), pr.qual,
+           'non-empty rule texts (%d feasible paths)' % n,
+           'every non-empty text is tokenized, shifted through the reducer '
+           'table and answered by the parse state\'s result' if bad is None
+           else 'a non-empty rule text (%s) can be answered by %s without '
+           'going through the tokenizer and the reducer table: keywords, '
+           'whitespace and parentheses are not interpreted on that path '
+           '(path: %s)' % (dom[bad[2]].label, bad[1],
+                           bad[0].cond_text()[-200:]))
+
+
+def check_list_elems(ctx):
+    """Every entry of a list rule takes part in the result."""
+    prog = ctx.prog
+    f = prog.functions.get(PARSER + '._parse_list_rule')
+    if f is None:
+        raise AnalysisError('list-rule translator not found')
+    pm = parent_map(f.node)
+    W = lambda n: ctx.where(f.module, n)
+    problems = []
+    for n in walk_no_nested(f.node):
+        if isinstance(n, (ast.ListComp, ast.GeneratorExp, ast.SetComp)) \
+                and any(g.ifs for g in n.generators):
+            problems.append((n, 'a comprehension over the entries filters '
+                             'them (%s)' % U(n)[:60]))
+        if isinstance(n, (ast.Continue, ast.Break)):
+            loop = None
+            guard = None
+            a = pm.get(n)
+            while a is not None:
+                if isinstance(a, ast.If) and guard is None:
+                    guard = a
+                if isinstance(a, (ast.For, ast.While)):
+                    loop = a
+                    break
+                a = pm.get(a)
+            ok = False
+            if loop is not None and guard is not None and isinstance(
+                    loop, ast.For):
+                t = guard.test
+                ok = isinstance(t, ast.UnaryOp) and isinstance(
+                    t.op, ast.Not) and U(t.operand) == U(loop.target)
+            if not ok:
+                problems.append((n, 'an entry can be skipped under the '
+                                 'condition `%s`' % (
+                                     U(guard.test)[:60] if guard is not None
+                                     else 'unconditional')))
+    for node, why in problems:
+        ctx.ob('C01.LIST', False, W(node), f.qual, U(node)[:60],
+               'in the list-of-lists translation ' + why + ': the rule is '
+               'no longer the OR of the ANDs of all its entries')
+    if not problems:
+        ctx.ob('C01.LIST', True, W(f.node), f.qual,
+               'entries of a list rule',
+               'only empty entries are skipped; every other entry is parsed '
+               'and combined')
+
+
 def _needs_separator(en, path, subject):
     """True when the path uses element [1] of `subject.split(sep, ..)` on its
     normal (non-exception) flow: impossible for a text without the
@@ -1095,4 +1196,6 @@ def check(ctx):
     tf, en, paths = T.extract(ctx.prog)
     check_tokenizer(ctx, table, tf, en, paths)
     check_list(ctx, classes)
+    check_list_elems(ctx)
     check_const(ctx)
+    check_text_driver(ctx, pstate)
